@@ -2,17 +2,21 @@
 
 Harness family `c11` (harness/c11.go, harness/c11srv.go): the real chpool.Pool over ch.Options.Dialer handing out
 net.Pipe connections served by a scripted ClickHouse server.  Operation histories from the model's alphabet
-(Acquire, Release once or repeatedly, Client.Do ok / exception / cut / cancelled, Ping, Pool.Do, Pool.Ping, health
-check ticks, time, Close) run one operation at a time; after each the harness waits for puddle's goroutines and
-prints outcome, connection id per handle, Stat() and the set of closed connections.  The same lines run through
+(New with MinConns and scripted dial outcomes, Acquire, Release once or repeatedly, Client.Do ok / exception / cut /
+cancelled, Ping, Pool.Do, Pool.Ping, health check ticks with checkMinConns, the completion of each creation
+checkMinConns started, time, Close) run one operation at a time; after each the harness waits for puddle's goroutines
+and prints outcome, connection id per handle, Stat() (total, acquired, idle, constructing) and the set of closed
+connections.  The dials of the goroutines checkMinConns starts wait at a gate in the harness's dialer, so holders, further
+ticks and Close run while creations are in flight; a tick is reported with the number of creations it started.  The same lines run through
 the extracted model (coq/model/Pool.v through GluePool.v) and must agree; a direct oracle judges the property on
 the implementation alone.  Untimed histories: every history up to a length that grows with the budget over a
 six-operation alphabet with MaxConns 1 and 2, then random long ones.  Timed histories follow a slotted real-time
-schedule (lifetimes, idle times and the background health check in play); a history whose comparison or oracle
+schedule (lifetimes, idle times and the background health check in play; two fifths of them keep the pool AT the
+MinConns floor while New's connections outlive their lifetime or idle time); a history whose comparison or oracle
 fails is run again alone (timed ones with a longer time unit) and reported only if it fails again, one whose schedule the machine could not keep three times
 is not compared (counted).
 Family `c11r` (-race build): the same operations from 2..7 goroutines with millisecond lifetimes, a 1-3 ms health
-check and a concurrent Close; direct oracle only (in-flight counter at the server, holders per connection, Stat total,
+check, MinConns 0..MaxConns (checkMinConns dialing concurrently) and a concurrent Close; direct oracle only (in-flight counter at the server, holders per connection, Stat total,
 open connections at dial time, panics, everything closed after Close, data races).
 """
 import os
@@ -118,7 +122,7 @@ def explore(res, scale=1, seed=None):
         res.distribution[k] = res.distribution.get(k, 0) + v
     if not res.samples:
         pick = list(zip(rows, model))
-        timed = [x for x in pick if "(tick)" in x[0][0]]
+        timed = [x for x in pick if "(spawn " in x[0][0]] or [x for x in pick if "(tick " in x[0][0]]
         res.samples = [{"case": r[0][:500], "implementation": r[1][:500], "model": m[:500], "oracle": r[2]}
                        for r, m in pick[:2] + pick[3000:3001] + timed[:2] + pick[-1:]]
     ok, ns, slog = C.coq_sample("GluePool", C.sample_pairs(rows, model, seed), wd, "c11")
@@ -176,11 +180,14 @@ def explore(res, scale=1, seed=None):
 def _tail(res, stats):
     lens = sorted(int(k.rsplit("len", 1)[1]) for k in stats if k.startswith("c11.exhaustive.len"))
     res.extra["exhaustive_part"] = ("every history of length <= %d over {Acquire, Release h, Do h ok, Do h cut, Pool.Do ok, Close} "
-                                    "for MaxConns 1 and 2, each followed by release of every handle and Close"
-                                    % (lens[-1] if lens else 0))
+                                    "for MaxConns 1 and 2 with MinConns 0, and of length <= %d for (MaxConns, MinConns) = (1,1), (2,1), (2,2), "
+                                    "each followed by release of every handle and Close"
+                                    % (lens[-1] if lens else 0, (lens[-1] - 1) if lens else 0))
     res.extra["rule"] = ("histories: enumerated exhaustively up to the stated length, the rest drawn from the seeded generator "
-                         "(random long untimed ones with stale and non-existent handles, failing dials, all four request outcomes; "
-                         "timed ones with lifetimes 1-3, idle times 1-2 and a health check every 2-3 time units); concurrent runs: "
+                         "(random long untimed ones with MaxConns 1-3, MinConns 0..MaxConns (and MaxConns+1: New must fail), failing dials "
+                         "in New and in Acquire, stale and non-existent handles, all four request outcomes; timed ones with lifetimes 1-3, "
+                         "idle times 1-2, a health check every 2-3 time units, MinConns >= 1 in two thirds of them, background creations "
+                         "completing at once, later, after Close, or failing; floor histories: MinConns connections expiring together); concurrent runs: "
                          "2..7 goroutines x 20..79 operations.  A case is non-trivial when the implementation produced an "
                          "observation for it: counted per distinct case line")
     res.assumptions = [
@@ -190,7 +197,10 @@ def _tail(res, stats):
         "is closed afterwards; the harness reports what it observed): C04/C10 own that behaviour",
         "a holder does not use a handle after releasing it except to call Release again (Do / Ping on a released handle "
         "dereference a nil resource after the repair and are not generated)",
-        "MinConns = 0 (createIdleResources / checkMinConns are not modelled)",
+        "a goroutine started by checkMinConns enters CreateResource, and its dial returns, at moments chosen by the history "
+        "(model) / by the harness's gate (implementation); how many creations a tick starts depends on a race inside the "
+        "implementation (Destroy goroutines vs checkMinConns reading Stat): the harness reports the number it saw and the "
+        "model must be able to produce it by some order of those goroutines",
         "time is an abstract counter; the timed histories map it to real time on a slotted schedule with a quarter-unit margin",
         "the handle -> connection map is read from chpool.Client by reflection over field types (not names)",
     ]
